@@ -292,8 +292,15 @@ end C01
 namespace C02
 
 def check (e : Engines) (c : Conf) (u : Upstream) (q : Query) (out : Outcome) : Option String :=
-  if reserved c q || precededByOther e c q || blockedByRules e c q || serviceMayBlock e c q || otherBlocks e c q then
-    none      -- no upstream answer to the query to speak of, or rewritten (exempt)
+  if reserved c q then none
+  else if filteringOn c && qhost q != [] && legacyRewritten e c (qhost q) q.qtype then
+    -- rewritten: exempt from response filtering, but the client must get its own question back
+    match out with
+    | .err => some "error"
+    | .done m _ _ =>
+      if m.qname == q.name && m.qtype == q.qtype then none else some "rewritten-question-not-restored"
+  else if precededByOther e c q || blockedByRules e c q || serviceMayBlock e c q || otherBlocks e c q then
+    none      -- no upstream answer to the query to speak of
   else
     match out with
     | .err => some "error"
